@@ -344,6 +344,44 @@ fn main() {
                 let (l, r) = (q(num(0.0004), None), q(num(0.0004), None));
                 match l.try_add(&r, &c) { Ok(sum) => match ends(sum.value()) { Some((s, _, _)) if close(s, 0.0008) => {}, o => problems.push(format!("0.0004 + 0.0004 = {:?}", o)) }, Err(e) => problems.push(format!("unitless add refused: {e}")) }
             }
+            // GroupedQuantity: every input ends up in exactly one bucket; per unit the total is the sum; texts kept one per input
+            {
+                use cooklang::quantity::GroupedQuantity;
+                let c = Converter::bundled();
+                let q = |v: Value, u: Option<&str>| cooklang::quantity::Quantity::new(v, u.map(|s| s.to_string()));
+                let build = |items: &Vec<cooklang::quantity::ScaledQuantity>| { let mut g = GroupedQuantity::empty(); for i in items { g.add(i, &c); } g };
+                let count_text = |g: &GroupedQuantity, t: &str| g.iter().filter(|x| matches!(x.value(), Value::Text(s) if s == t)).count();
+                let amount = |g: &GroupedQuantity, unit: &str| -> Vec<(f64, f64)> {
+                    g.iter().filter(|x| !x.value().is_text()).filter_map(|x| if x.unit().is_none() { None } else { amount_in(&c, x, unit).or_else(|| if x.unit() == Some(unit) { ends(x.value()).map(|(a, b, _)| (a, b)) } else { None }) }).collect()
+                };
+                let h1 = vec![q(txt("a pinch"), None), q(num(2.0), None), q(txt("a pinch"), None), q(num(1.0), Some("kg")), q(num(0.4), Some("g")),
+                              q(num(2.0), Some("bag")), q(num(1.0), Some("bag")), q(num(1.0), Some("can")), q(txt("some"), Some("g")), q(txt("some"), Some("g"))];
+                match std::panic::catch_unwind(|| build(&h1)) {
+                    Err(_) => problems.push("GroupedQuantity::add panicked".into()),
+                    Ok(g) => {
+                        if count_text(&g, "a pinch") != 2 { problems.push(format!("GroupedQuantity: \"a pinch\" added twice is listed {} time(s): {}", count_text(&g, "a pinch"), g)); }
+                        if count_text(&g, "some") != 2 { problems.push(format!("GroupedQuantity: text \"some g\" added twice is listed {} time(s): {}", count_text(&g, "some"), g)); }
+                        match amount(&g, "g").as_slice() { [(s, e)] if close(*s, 1000.4) && close(*e, 1000.4) => {}, o => problems.push(format!("GroupedQuantity: mass total {:?} expected 1000.4 g ({})", o, g)) }
+                        match amount(&g, "bag").as_slice() { [(s, _)] if close(*s, 3.0) => {}, o => problems.push(format!("GroupedQuantity: bags {:?} expected 3 ({})", o, g)) }
+                        match amount(&g, "can").as_slice() { [(s, _)] if close(*s, 1.0) => {}, o => problems.push(format!("GroupedQuantity: cans {:?} expected 1 ({})", o, g)) }
+                    }
+                }
+                // merge of two groups = adding everything of the second to the first
+                let a = vec![q(num(2.0), Some("bag")), q(num(100.0), Some("g")), q(num(1.0), None), q(num(3.0), Some("sprig"))];
+                let b = vec![q(num(50.0), Some("g")), q(num(4.0), Some("bag")), q(num(2.0), None), q(num(1.0), Some("can")), q(txt("big"), None)];
+                match std::panic::catch_unwind(|| { let mut g = build(&a); let o = build(&b); g.merge(&o, &c); g }) {
+                    Err(_) => problems.push("GroupedQuantity::merge panicked".into()),
+                    Ok(g) => {
+                        match amount(&g, "bag").as_slice() { [(s, _)] if close(*s, 6.0) => {}, o => problems.push(format!("GroupedQuantity::merge: bags {:?} expected 6 ({})", o, g)) }
+                        match amount(&g, "g").as_slice() { [(s, _)] if close(*s, 150.0) => {}, o => problems.push(format!("GroupedQuantity::merge: grams {:?} expected 150 ({})", o, g)) }
+                        match amount(&g, "sprig").as_slice() { [(s, _)] if close(*s, 3.0) => {}, o => problems.push(format!("GroupedQuantity::merge: sprigs {:?} expected 3 ({})", o, g)) }
+                        match amount(&g, "can").as_slice() { [(s, _)] if close(*s, 1.0) => {}, o => problems.push(format!("GroupedQuantity::merge: cans {:?} expected 1 ({})", o, g)) }
+                        let unitless: Vec<f64> = g.iter().filter(|x| x.unit().is_none() && !x.value().is_text()).filter_map(|x| ends(x.value()).map(|e| e.0)).collect();
+                        if unitless.len() != 1 || !close(unitless[0], 3.0) { problems.push(format!("GroupedQuantity::merge: unitless {:?} expected [3] ({})", unitless, g)); }
+                        if count_text(&g, "big") != 1 { problems.push(format!("GroupedQuantity::merge: text lost ({})", g)); }
+                    }
+                }
+            }
             // merges: every text of both groups kept in order, numeric totals summed
             let merges: Vec<(Vec<Value>, Vec<Value>)> = vec![
                 (vec![num(an)], vec![txt("big")]),
@@ -394,6 +432,15 @@ fn main() {
                 Ok((false, _)) => println!("{}", json!({"error": "conversion refused"})),
                 Err(_) => println!("{}", json!({"error": "panic"})),
             }
+        }
+        "step_numbers" => {
+            // step_numbers <text>: per section, the numbers of its steps (public parser, all extensions)
+            let parser = cooklang::CooklangParser::extended();
+            let text = args[2].replace("\\n", "\n");
+            let r = std::panic::catch_unwind(|| parser.parse(&text).into_output().map(|r| {
+                r.sections.iter().map(|s| s.content.iter().filter_map(|c| match c { cooklang::Content::Step(st) => Some(st.number), _ => None }).collect::<Vec<u32>>()).collect::<Vec<_>>()
+            }));
+            match r { Ok(Some(v)) => println!("{}", json!({"sections": v})), Ok(None) => println!("{}", json!({"error": "no output"})), Err(_) => println!("{}", json!({"panic": true})) }
         }
         "convert_raw" => {
             // convert_raw <value> <ratio_a> <diff_a> <ratio_b> <diff_b>
